@@ -6,6 +6,7 @@ import (
 	"fmt"
 	"os"
 	"path/filepath"
+	"sort"
 	"strconv"
 	"strings"
 	"sync"
@@ -73,6 +74,7 @@ type c04Binding struct { // a schedule binding
 	AF      bool
 	Group   int
 	CfgName string // the `name:` of the configuration: "" = Name, "-" = no name (default name "schedule"), else a name other bindings may share
+	Snaps   []string // includeSnapshotsFrom: names of kubernetes bindings of the hook (unambiguous ones)
 }
 
 // c04CfgName is the binding name the operator uses (binding names need not be unique).
@@ -103,6 +105,8 @@ type c04KBinding struct { // a kubernetes binding (ConfigMaps labelled verif=<Na
 	Group   int
 	EOS     bool   // executeHookOnSynchronization
 	CfgName string // see c04Binding.CfgName (default name "kubernetes")
+	Snaps   []string // includeSnapshotsFrom (see c04Binding.Snaps)
+	Jq      bool     // jqFilter: ".data" — the hook is shown a filterResult next to every object
 }
 
 type c04Hook struct {
@@ -194,6 +198,7 @@ func (h c04Hook) body(dir string) string {
 	fmt.Fprintf(&b, "D=%q\nH=%q\n", dir, h.Name)
 	b.WriteString(`n=$(cat "$D/count.$H" 2>/dev/null || echo 0); n=$((n+1)); echo $n > "$D/count.$H"
 ctx=$(jq -c '[.[] | [.binding, (.type // "-"), (.groupName // "-")]]' "$BINDING_CONTEXT_PATH")
+cp "$BINDING_CONTEXT_PATH" "$D/ctx.$H.$n"
 mkfifo "$D/gate.$H.$n"
 printf 'start\t%s\t%s\t%s\t%s\n' "$H" "$n" "$(date +%s%N)" "$ctx" >> "$D/log"
 read -r mode < "$D/gate.$H.$n"
@@ -266,6 +271,7 @@ type c04Running struct {
 	start c04Start
 	kind  string // exec | norun | noexec
 	ret   *c04Ret
+	pay   string // what the context file carried, per context (see hookPayload)
 }
 
 type c04World struct {
@@ -278,6 +284,7 @@ type c04World struct {
 	cancel context.CancelFunc
 	tasks  *Interner // task uuid → number
 	binds  *Interner // binding name → number
+	pays   *Interner // payload parts of the context files (watch event, object + filterResult, snapshot entry) → number
 	known  map[string]bool
 	boInit time.Duration
 	boStep time.Duration
@@ -361,7 +368,7 @@ func newC04World(c *Case, r *Run, hooks []c04Hook, boInit, boStep time.Duration,
 		return nil, err
 	}
 	_ = os.MkdirAll(filepath.Join(dir, "tmp"), 0o755)
-	w := &c04World{c: c, dir: dir, hooks: hooks, tasks: NewInterner(), binds: NewInterner(), known: map[string]bool{},
+	w := &c04World{c: c, dir: dir, hooks: hooks, tasks: NewInterner(), binds: NewInterner(), pays: NewInterner(), known: map[string]bool{},
 		boInit: boInit, boStep: boStep, realBo: realBo, boCalls: map[string][]c04BoCall{},
 		entries: map[string]chan c04Entry{}, rets: map[string]chan c04Ret{}, lastFail: map[int]*c04BoCall{}, running: map[int]*c04Running{}}
 	// informer factories are shared process-wide by (resource, namespace, selector): one namespace per case
@@ -512,6 +519,104 @@ func (w *c04World) hookCtxs(js string) string {
 		return "-"
 	}
 	return strings.Join(ss, ";")
+}
+
+// c04Canon is the JSON value with sorted keys ("<absent>" when the member is missing).
+func c04Canon(raw json.RawMessage) string {
+	if raw == nil {
+		return "<absent>"
+	}
+	var v interface{}
+	if err := json.Unmarshal(raw, &v); err != nil {
+		return "<unparsable>"
+	}
+	b, _ := json.Marshal(v)
+	return string(b)
+}
+
+// hookPayload is what the hook process received besides binding / type / group, read from the copy
+// the hook made of its context file: per context `<ev>/<objs>/<snaps>`, each a list of interned
+// numbers. ev = watch event, then object + filterResult (an Event with `"object": null` has only the
+// first; no Event members at all: `-`); objs = the members of `objects` (object + filterResult);
+// snaps = the `snapshots` member: one number for the member itself, one per key, one per entry.
+func (w *c04World) hookPayload(hook string, n int) string {
+	b, err := os.ReadFile(filepath.Join(w.dir, fmt.Sprintf("ctx.%s.%d", hook, n)))
+	if err != nil {
+		return "unreadable"
+	}
+	var raw []map[string]json.RawMessage
+	if err := json.Unmarshal(b, &raw); err != nil {
+		return "unparsable"
+	}
+	w.imu.Lock()
+	defer w.imu.Unlock()
+	list := func(xs []int, sorted bool) string {
+		if sorted {
+			sort.Ints(xs)
+		}
+		if len(xs) == 0 {
+			return "-"
+		}
+		return joinInts(xs)
+	}
+	var res []string
+	for _, m := range raw {
+		var ev, objs, snaps []int
+		_, hasObj := m["object"]
+		_, hasWE := m["watchEvent"]
+		_, hasFR := m["filterResult"]
+		if hasObj || hasWE || hasFR {
+			ev = append(ev, w.pays.Id("we|"+c04Canon(m["watchEvent"])))
+			if o := c04Canon(m["object"]); o != "null" && o != "<absent>" {
+				ev = append(ev, w.pays.Id("o|"+o+"|"+c04Canon(m["filterResult"])))
+			}
+		}
+		if r, has := m["objects"]; has {
+			var els []json.RawMessage
+			if json.Unmarshal(r, &els) != nil {
+				objs = append(objs, w.pays.Id("objects|"+c04Canon(r)))
+			}
+			for _, el := range els {
+				objs = append(objs, w.pays.Id("o|"+c04Canon(el)))
+			}
+		}
+		if r, has := m["snapshots"]; has {
+			snaps = append(snaps, w.pays.Id("s|"))
+			var keys map[string][]json.RawMessage
+			if json.Unmarshal(r, &keys) != nil {
+				snaps = append(snaps, w.pays.Id("snapshots|"+c04Canon(r)))
+			}
+			var ks []string
+			for k := range keys {
+				ks = append(ks, k)
+			}
+			sort.Strings(ks)
+			for _, k := range ks {
+				els := keys[k]
+				snaps = append(snaps, w.pays.Id("s|"+k))
+				for _, el := range els {
+					snaps = append(snaps, w.pays.Id("s|"+k+"|"+c04Canon(el)))
+				}
+			}
+		}
+		res = append(res, list(ev, false)+"/"+list(objs, true)+"/"+list(snaps, true))
+		if len(ev) > 1 {
+			w.c.Note("shown:event-with-object")
+		}
+		if hasFR {
+			w.c.Note("shown:filterResult")
+		}
+		if len(objs) > 0 {
+			w.c.Note("shown:synchronization-with-objects")
+		}
+		if len(snaps) > 2 {
+			w.c.Note("shown:snapshots-with-objects")
+		}
+	}
+	if len(res) == 0 {
+		return "-"
+	}
+	return strings.Join(res, ";")
 }
 
 func (w *c04World) readStarts() []c04Start {
@@ -733,6 +838,7 @@ func (w *c04World) begin(qn int) string {
 	}
 	run.kind = "exec"
 	run.hook, _ = w.hookByName(run.start.hook)
+	run.pay = w.hookPayload(run.start.hook, run.start.n)
 	now := w.snapQueue(w.op.TaskQueues.GetByName(qname))
 	w.c.Op(fmt.Sprintf("begin q=%d", qn), fmt.Sprintf("exec task=%d hook=%d ctxs=%s queue=%s", id, run.hook.Num, w.hookCtxs(run.start.ctxs), w.snapIds(now)))
 	gap := int64(0)
@@ -740,7 +846,7 @@ func (w *c04World) begin(qn int) string {
 		// from the back-off call after the failed attempt to the worker entering the handler again
 		gap = ent.at.Sub(lf.at).Nanoseconds()
 	}
-	w.c.Oracle(fmt.Sprintf("begin q=%d task=%d gap=%d ctxs=%s", qn, id, gap, w.hookCtxs(run.start.ctxs)))
+	w.c.Oracle(fmt.Sprintf("begin q=%d task=%d gap=%d ctxs=%s pay=%s", qn, id, gap, w.hookCtxs(run.start.ctxs), run.pay))
 	if w.onExec != nil {
 		w.onExec(qn, id, ent.pre, now, run)
 	}
@@ -856,8 +962,8 @@ func (w *c04World) end(qn int, mode string, out *c04Out) string {
 		fc = run.real.GetFailureCount()
 	}
 	if run.kind == "exec" {
-		w.c.Oracle(fmt.Sprintf("end q=%d %s task=%d ctxs=%s sleep=%d after=%s s0=0", qn, ok, id, w.hookCtxs(run.start.ctxs),
-			bo.delay.Nanoseconds(), afterS))
+		w.c.Oracle(fmt.Sprintf("end q=%d %s task=%d ctxs=%s sleep=%d after=%s s0=0 pay=%s", qn, ok, id, w.hookCtxs(run.start.ctxs),
+			bo.delay.Nanoseconds(), afterS, run.pay))
 	}
 	w.c.Op(fmt.Sprintf("end q=%d %s", qn, ok), fmt.Sprintf("status=%s fc=%d sleep=%d queue=%s", status, fc,
 		bo.delay.Nanoseconds(), w.snapIds(afterSnaps)))
